@@ -77,6 +77,7 @@ def run(repo, rep, tier):
 
     r6 = rep.rule('C12.R6', 'propagated / class_origin / qualifier flavor '
                   'bookkeeping of the class resolver')
+    redeclared_flavors(repo, rep)
     inheritance_marks(repo, rep, r6)
 
     mp = repo.cls(MAIN, 'MainProvider')
@@ -475,3 +476,83 @@ def inheritance_marks(repo, rep, r6):
     judge(len(ini) == 1 and norm(ini[0].value) == 'False', iq,
           'qualifier.propagated', 'propagated', iq.node.lineno,
           'a qualifier declared on the element itself is not propagated')
+
+
+class _BodyFunc:
+    """a statement list presented to paths.return_paths as a function"""
+
+    def __init__(self, body, like):
+        self.node = ast.FunctionDef(
+            name='<body>', args=ast.arguments(
+                posonlyargs=[], args=[], kwonlyargs=[], kw_defaults=[],
+                defaults=[]), body=list(body), decorator_list=[])
+        self.cls = like.cls
+        self.module = like.module
+        self.name = '<body>'
+        self.params = []
+
+
+def redeclared_flavors(repo, rep):
+    """C12.R7: every qualifier object of the new class that stays in the
+    resolved element (because the element declares it itself) has its
+    flavors filled in from the qualifier declaration, on every path of
+    _resolve_qualifiers.  A qualifier an API client builds carries
+    tosubclass=None / overridable=None; left like that it is read as
+    Restricted one level further down and the grandchild loses it."""
+    from ..paths import return_paths
+    RES = 'pywbem_mock/_resolvermixin.py'
+    rm = repo.cls(RES, 'ResolverMixin')
+    rq = rm.methods.get('_resolve_qualifiers')
+    if rq is None:
+        raise AnalysisError('ResolverMixin._resolve_qualifiers vanished')
+    r7 = rep.rule('C12.R7', 'a qualifier redeclared by the element gets its '
+                  'flavors from the declaration on every path')
+    r7.functions.add(rq.fq)
+    ps = [p for p in rq.params if p != 'self']
+    newq, inhq = ps[0], ps[1]
+    loops = [n for n in walk_no_nested(rq.node) if isinstance(n, ast.For) and
+             isinstance(n.iter, ast.Call) and
+             norm(n.iter.func) in (inhq + '.items', inhq + '.keys',
+                                   inhq + '.values') or
+             (isinstance(n, ast.For) and norm(n.iter) == inhq)]
+    if len(loops) != 1:
+        raise AnalysisError('_resolve_qualifiers: loop over the inherited '
+                            'qualifiers not found (%d)' % len(loops))
+    lp = loops[0]
+    key = lp.target.elts[0].id if isinstance(lp.target, ast.Tuple) else \
+        norm(lp.target)
+    paths = return_paths(_BodyFunc(lp.body, rq), inline=False)
+    if paths is None:
+        r7.undecided.append('_resolve_qualifiers: too many paths')
+        return
+    member = '%s in %s' % (key, newq)
+    want = '%s[%s]' % (newq, key)
+    for p in paths:
+        declared = _has_fact(p.facts, member, True)
+        if not declared:
+            continue
+        r7.sites += 1
+        inits = [e for e in p.effects if isinstance(e, ast.Expr) and
+                 isinstance(e.value, ast.Call) and
+                 (dotted(e.value.func) or '').endswith('_init_qualifier')
+                 and e.value.args and norm(e.value.args[0]) == want]
+        conds = [('%s%s' % ('' if pol else 'not ', norm(t, 40)))
+                 for t, pol in p.facts]
+        ok = bool(inits)
+        r7.ob(ok, ' / '.join(conds), {'path': conds})
+        if not ok:
+            last = [e for e in p.effects if hasattr(e, 'lineno')]
+            rep.finding(r7, rq.qualname, ' / '.join(conds),
+                        'flavors-not-initialised', RES,
+                        last[-1].lineno if last else lp.lineno,
+                        'on the path [%s] the qualifier the element declares '
+                        'itself (%s) stays in the resolved element without '
+                        '_init_qualifier(): built by an API client it keeps '
+                        'tosubclass=None / overridable=None, which the next '
+                        'level reads as Restricted - the grandchild loses a '
+                        'ToSubclass qualifier (e.g. Key) in '
+                        'GetClass(LocalOnly=False)' % (' / '.join(conds),
+                                                       want))
+    if r7.sites < 3:
+        raise AnalysisError('_resolve_qualifiers: only %d paths with a '
+                            'redeclared qualifier' % r7.sites)
